@@ -94,6 +94,10 @@ struct TreeGen<'a> {
     caller_dirs: Vec<String>,
     used_caller: BTreeSet<usize>,
     cwd: String,
+    /// directory below which this tree's own directories live ("" = the scratch root)
+    base: String,
+    /// prefix for the names of files found as written relative to the (shared) cwd
+    w_prefix: String,
     max_files: usize,
     ip_n: usize,
     twice: Option<usize>,
@@ -138,8 +142,16 @@ impl<'a> TreeGen<'a> {
     /// Decide where `child` lives and how `parent` names it. Returns (name as written, lines to
     /// put directly before the include line).
     fn place(&mut self, child: usize, parent: usize) -> (String, Vec<String>) {
-        let name = self.files[child].1.clone();
+        let mut name = self.files[child].1.clone();
         let pdir = self.files[parent].0.clone();
+        // a file that ends up in or below the cwd is found "as written" by every tree sharing
+        // that cwd: it gets a tree-unique name (a no-op for a tree that lives alone)
+        let in_cwd = |d: &str, cwd: &str| d == cwd || d.starts_with(&format!("{}/", cwd));
+        let anc_in_cwd = self.ancestors(parent).iter().any(|a| in_cwd(&self.files[*a].0, &self.cwd));
+        if !self.w_prefix.is_empty() && (in_cwd(&pdir, &self.cwd) || anc_in_cwd) && !name.starts_with(&self.w_prefix) {
+            name = format!("{}{}", self.w_prefix, name);
+            self.files[child].1 = name.clone();
+        }
         let sub = if self.r.chance(1, 3) { Some(format!("s{}", self.r.below(3))) } else { None };
         let dot = self.r.chance(1, 8);
         let with_sub = |d: &str, sub: &Option<String>| -> (String, String) {
@@ -152,14 +164,20 @@ impl<'a> TreeGen<'a> {
         match kind {
             // path as written, relative to the cwd
             0 | 1 => {
-                let (dir, written) = with_sub(&self.cwd.clone(), &sub);
+                // found relative to the cwd, which several trees may share: a tree-unique name
+                let name = if name.starts_with(&self.w_prefix) { name.clone() } else { format!("{}{}", self.w_prefix, name) };
+                self.files[child].1 = name.clone();
+                let (dir, written) = match &sub {
+                    Some(s) => (format!("{}/{}", self.cwd, s), format!("{}/{}", s, name)),
+                    None => (self.cwd.clone(), name.clone()),
+                };
                 self.files[child].0 = dir;
                 self.edges.push((parent, child, "w".into()));
                 (written, vec![])
             }
             // path as written, absolute
             2 => {
-                let dir = format!("abs place/d{}", self.r.below(2));
+                let dir = format!("{}abs place/d{}", self.base, self.r.below(2));
                 self.files[child].0 = dir.clone();
                 self.edges.push((parent, child, "a".into()));
                 (format!("$R/{}/{}", dir, name), vec![])
@@ -199,9 +217,9 @@ impl<'a> TreeGen<'a> {
             _ => {
                 self.ip_n += 1;
                 let ipdir = match self.r.below(3) {
-                    0 => format!("ip{}", self.ip_n),
+                    0 => format!("{}ip{}", self.base, self.ip_n),
                     1 => format!("{}/ipsub{}", if pdir.is_empty() { "proj".to_string() } else { pdir.clone() }, self.ip_n),
-                    _ => format!("deep/er/ip{}", self.ip_n),
+                    _ => format!("{}deep/er/ip{}", self.base, self.ip_n),
                 };
                 let (dir, written) = with_sub(&ipdir, &sub);
                 self.files[child].0 = dir;
@@ -314,31 +332,46 @@ fn collect_labels(nodes: &[Node], out: &mut Vec<String>) {
     }
 }
 
+/// Where a generated tree lives: alone below the scratch root (engine inctree), or as one of
+/// many trees that share one process cwd (engine multibuild).
+#[derive(Clone, Debug, Default)]
+pub struct Layout {
+    /// "" or "trees/7/" (with the trailing slash)
+    pub base: String,
+    pub cwd: Option<String>,
+    pub w_prefix: String,
+    pub msg_tag: Option<String>,
+}
+
 pub fn scenario_shape(_tier: &str, base_seed: u64, g: u64) -> Scenario {
-    let seed = mix(base_seed, &[0xC11, g]);
+    scenario_with(mix(base_seed, &[0xC11, g]), g, &Layout::default())
+}
+
+pub fn scenario_with(seed: u64, g: u64, layout: &Layout) -> Scenario {
     let mut r = Rng::new(seed);
     let pool = proggen::Pool::new(&mut r);
     let mut o = proggen::GenOpts::default();
     o.min_blocks = 5;
     o.max_blocks = 22;
-    o.msg_tag = format!("t{}m", g % 1000);
+    o.msg_tag = layout.msg_tag.clone().unwrap_or_else(|| format!("t{}m", g % 1000));
     if r.chance(3, 10) {
         o.fail = Some(proggen::FAIL_KINDS[r.usize(proggen::FAIL_KINDS.len())].to_string());
     }
     let prog = proggen::gen(&mut r, &pool, &o);
     let mut labels = vec![];
     collect_labels(&prog.nodes, &mut labels);
-    let main_dir = ["proj", "proj/src", "top dir"][r.usize(3)].to_string();
+    let main_dir = format!("{}{}", layout.base, ["proj", "proj/src", "top dir"][r.usize(3)]);
     let main_name = ["main.asm", "Main Prog.asm", "m"][r.usize(3)].to_string();
     // mostly a directory that is no directory of the tree; sometimes deep below the root (so
     // relative paths carry several leading ".."), sometimes the main file's own directory
-    let cwd = match r.below(20) {
+    let drawn = match r.below(20) {
         0..=11 => "cwd_here".to_string(),
         12..=16 => "w/x/cwd_here".to_string(),
         _ => main_dir.clone(),
     };
+    let cwd = layout.cwd.clone().unwrap_or(drawn);
     let ncaller = r.range(1, 2) as usize;
-    let caller_dirs: Vec<String> = (0..ncaller).map(|k| if k == 0 { "lib1".to_string() } else { "lib two/inc".to_string() }).collect();
+    let caller_dirs: Vec<String> = (0..ncaller).map(|k| if k == 0 { format!("{}lib1", layout.base) } else { format!("{}lib two/inc", layout.base) }).collect();
     let max_files = [1usize, 2, 3, 4, 5, 6, 8, 8][r.usize(8)];
     let mut tg = TreeGen {
         r: &mut r,
@@ -348,6 +381,8 @@ pub fn scenario_shape(_tier: &str, base_seed: u64, g: u64) -> Scenario {
         caller_dirs: caller_dirs.clone(),
         used_caller: BTreeSet::new(),
         cwd: cwd.clone(),
+        base: layout.base.clone(),
+        w_prefix: layout.w_prefix.clone(),
         max_files,
         ip_n: 0,
         twice: None,
